@@ -3,7 +3,7 @@ commands: online comparison with an executable bag model after every step."""
 import datetime
 import os
 
-from .. import gen, putcheck, run, snap, spec, trashio, world
+from .. import gen, putcheck, run, snap, spec, trashgen, trashio, world
 
 ID = 'C09'
 FMT = '%Y-%m-%dT%H:%M:%S'
@@ -16,6 +16,7 @@ NAMES = ['a', 'b', 'a.txt', 'A', 'foo', 'foo bar', 'é', 'x%y', 'n+1', '-d',
 def config(tier):
     return {
         'level': 'exploration',
+        'real_sample': 3 if tier == 'quick' else 20,
         'cases': 450 if tier == 'quick' else 6000,
         'budget_s': 55 if tier == 'quick' else 570,
         'floors': {'cases': 40, 'steps': 500, 'list_comparisons': 500,
@@ -55,14 +56,37 @@ def gen_case(rng, index, tier):
         kind = rng.choice(['file', 'file', 'tree', 'empty', 'link_dangling'])
         slots.append({'dir': d, 'name': nm, 'kind': kind})
         L.add(gen.entry_nodes(rng, d + '/' + nm, kind, 'c%ds%dg0' % (index, i)))
+    # entries already in the trash when the history starts: a volume may hold
+    # BOTH $topdir/.Trash/$uid and $topdir/.Trash-$uid
+    pre = []
+    for v in vols:
+        tds = [v + '/.Trash-%d' % L.uid]
+        if L.top_state.get(v) == 'sticky':
+            tds.append(v + '/.Trash/%d' % L.uid)
+        for td in tds:
+            for j in range(rng.choice([0, 0, 1, 2])):
+                nm = rng.choice(NAMES) + '-pre%d' % j
+                e = trashgen.add_trashed(
+                    L, rng, td, 'p%d%s' % (j, rng.choice(['', ' x'])),
+                    v + '/w/' + nm, '2020-0%d-1%dT10:00:0%d' % (
+                        rng.randint(1, 9), rng.randint(0, 9), j),
+                    rng.choice(['file', 'tree', 'empty']),
+                    'c%dpre%s%d' % (index, v, j), volume_rel=v)
+                pre.append(e)
     nsteps = rng.randint(4, 15 if tier == 'quick' else 40)
     steps = []
     for k in range(nsteps):
         r = rng.random()
+        if r < 0.05:
+            steps.append({'op': 'mk-top', 'vol': rng.choice(vols)})
+            continue
         if r < 0.35:
             ids = rng.sample(range(nslots), rng.randint(1, min(3, nslots)))
-            steps.append({'op': 'put', 'slots': ids,
-                          'spell': rng.choice(['abs', 'rel'])})
+            st = {'op': 'put', 'slots': ids,
+                  'spell': rng.choice(['abs', 'rel'])}
+            if rng.random() < 0.15:
+                st['trash_dir'] = rng.choice(vols) + '/.Trash-%d' % L.uid
+            steps.append(st)
         elif r < 0.47:
             steps.append({'op': 'recreate', 'slot': rng.randrange(nslots)})
         elif r < 0.65:
@@ -83,6 +107,7 @@ def gen_case(rng, index, tier):
                           'shift_h': rng.choice([0, 1, 23, 25, 47, 49, 24 * 7 + 1])})
     case = L.desc()
     case['slots'] = slots
+    case['pre'] = pre
     case['steps'] = steps
     case['dirs'] = dirs
     return case
@@ -92,9 +117,21 @@ class Model(object):
     def __init__(self):
         self.entries = []        # dicts: loc, date (datetime), trash (abs), sig
 
+    def visible(self):
+        """entries in USABLE trash dirs ($topdir/.Trash/$uid counts only
+        while $topdir/.Trash passes the checks)"""
+        out = []
+        for e in self.entries:
+            t = e['trash']
+            if os.path.basename(os.path.dirname(t)) == '.Trash' and \
+                    not spec.top_trash_ok(os.path.dirname(t)):
+                continue
+            out.append(e)
+        return out
+
     def lines(self):
         return sorted('%s %s' % (e['date'].strftime('%Y-%m-%d %H:%M:%S'), e['loc'])
-                      for e in self.entries)
+                      for e in self.visible())
 
 
 def trash_dirs(w):
@@ -140,13 +177,26 @@ def run_case(case):
         def slot_path(i):
             return w.abs(slots[i]['dir'] + '/' + slots[i]['name'])
 
+        for e in case.get('pre', []):
+            model.entries.append({
+                'loc': w.abs(e['loc']),
+                'date': datetime.datetime.strptime(e['date'], FMT),
+                'trash': os.path.realpath(w.abs(e['trash'])),
+                'sig': snap.signature(w.abs(e['trash'] + '/files/' + e['name']))})
+
         for k, st in enumerate(case['steps']):
             clock = clock + datetime.timedelta(hours=1, seconds=k)
             obs['steps'] = obs.get('steps', 0) + 1
             out['features'].append('op:' + st['op'])
             hist = {'step': k, 'op': st}
             r = None
-            if st['op'] == 'recreate':
+            if st['op'] == 'mk-top':
+                top = w.abs(st['vol'] + '/.Trash')
+                if not os.path.lexists(top):
+                    os.mkdir(top)
+                    os.chmod(top, 0o1777)
+                # fall through to the list/disk comparison below
+            elif st['op'] == 'recreate':
                 i = st['slot']
                 p = slot_path(i)
                 if not os.path.lexists(p):
@@ -164,13 +214,18 @@ def run_case(case):
                     args.append(p if st['spell'] == 'abs' else os.path.relpath(p, cwd))
                     if os.path.lexists(p) and p not in seen:
                         seen.add(p)
-                        exp, vol = spec.expected_trash_dirs(p, w.env(), w.uid, w.mounts)
+                        exp, vol = spec.expected_trash_dirs(
+                            p, w.env(), w.uid, w.mounts,
+                            trash_dir_opt=w.abs(st['trash_dir'])
+                            if st.get('trash_dir') else None)
                         if exp:
                             predicted.append({
                                 'loc': spec.real_entry(p), 'date': clock,
                                 'trash': os.path.realpath(exp[0]),
                                 'sig': snap.signature(p)})
-                r = run.run(w, 'put', ['--'] + args, stdin=b'', cwd=cwd,
+                topt = ['--trash-dir', w.abs(st['trash_dir'])] \
+                    if st.get('trash_dir') else []
+                r = run.run(w, 'put', topt + ['--'] + args, stdin=b'', cwd=cwd,
                             plan={'put_clock': clock.strftime(FMT)})
                 for e in predicted:
                     model.entries.append(e)
@@ -186,7 +241,7 @@ def run_case(case):
                 # listing must be the model's in-scope entries
                 scope = os.path.realpath(cwd)
                 want = sorted((e['date'].strftime('%Y-%m-%d %H:%M:%S'), e['loc'])
-                              for e in model.entries if spec.in_scope(e['loc'], scope))
+                              for e in model.visible() if spec.in_scope(e['loc'], scope))
                 got = sorted((d, p) for i, d, p in lst)
                 if want != got:
                     out['violations'].append({
@@ -241,9 +296,10 @@ def run_case(case):
                 pat = world.subst(st['pattern'], w.R)
                 r = run.run(w, 'rm', [pat], stdin=b'')
                 keep = []
+                vis = model.visible()
                 for e in model.entries:
                     subject = e['loc'] if pat.startswith('/') else os.path.basename(e['loc'])
-                    if spec.glob_match(subject, pat):
+                    if e in vis and spec.glob_match(subject, pat):
                         removed_any = True
                         obs['entries_removed_by_rm'] = obs.get('entries_removed_by_rm', 0) + 1
                     else:
@@ -255,8 +311,10 @@ def run_case(case):
                 r = run.run(w, 'empty', args, stdin=b'',
                             env={'TRASH_DATE': now.strftime(FMT)})
                 keep = []
+                vis = model.visible()
                 for e in model.entries:
-                    if st['days'] is None or spec.older_than(st['days'], now, e['date']):
+                    if e in vis and (st['days'] is None or
+                                     spec.older_than(st['days'], now, e['date'])):
                         removed_any = True
                         obs['entries_removed_by_empty'] = obs.get('entries_removed_by_empty', 0) + 1
                     else:
@@ -301,7 +359,7 @@ def run_case(case):
                                'history': case['steps'][:k + 1]}})
                 break
             # payload signatures and trash dirs of model entries
-            for e in model.entries:
+            for e in model.visible():
                 hit = [x for x in disk if x[0] == e['loc'] and
                        os.path.realpath(x[2]) == e['trash'] and
                        snap.signature(os.path.join(x[2], 'files', x[3])) == e['sig']]
